@@ -1,9 +1,9 @@
-(* Obligation C20/normal_moments_match_density.  Statement as printed by Coq from Inferno.C20.DistProofs; proof by reference.
+(* Obligation C20/normal_moments_match_density.  Statement as printed by Coq from Inferno.C20.DistNormal; proof by reference.
    This file contains nothing else, so the statement cannot be weakened quietly. *)
 From Coq Require Import Reals List ZArith Bool.
 From Coquelicot Require Import Coquelicot.
 From Flocq Require Import Core.Raux.
-From Inferno Require Import Base.Num Base.NumR C20.Model C20.Spec C20.DistProofs.
+From Inferno Require Import Base.Num Base.NumR Gen.Distributions C20.Model C20.Spec C20.DistNormal.
 Import ListNotations.
 Open Scope R_scope.
 Theorem normal_moments_match_density : forall (erf : R -> R) (loc scale : R),
@@ -20,5 +20,5 @@ Theorem normal_moments_match_density : forall (erf : R -> R) (loc scale : R),
     scale * scale * ((x - loc) * normal_pdf RN (2 * PI) x loc scale) in
   (is_lim F1 p_infty (normal_mean RN loc) /\ is_lim F1 m_infty 0) /\
   is_lim F2 p_infty (normal_variance RN scale) /\ is_lim F2 m_infty 0.
-Proof. exact (@Inferno.C20.DistProofs.normal_moments_match_density). Qed.
+Proof. exact (@Inferno.C20.DistNormal.normal_moments_match_density). Qed.
 Print Assumptions normal_moments_match_density.
